@@ -240,7 +240,7 @@ def _integrator(cfg, B):
             B.ob('step%d-finite' % s, 'true', all(bool(rnp.all(rnp.isfinite(d))) for d in f.data))
         for q in range(neq):
             B.eq_arrays('state-unchanged:step%d:eq%d' % (s, q), f.data[q], W[q], meta={'finite_required': True})
-        if integ == 'gear' and s == 0:
+        if integ == 'gear' and s == 0 and hasattr(solver, '_lastresidual'):
             # composition: the second (BDF2) step starts from what the first one provably produced - the state W and a
             # zero stored increment (both asserted here, then substituted so that the solver need not re-derive them)
             for q in range(neq):
